@@ -2,6 +2,7 @@
 size_t gz_i;
 size_t gz_j;
 size_t gz_k;
+bool gz_extended;
 size_t gz_hint;
 #pragma CPROVER check push
 #pragma CPROVER check disable "signed-overflow"
@@ -28,6 +29,13 @@ void pl_lemma_osec_lex(void)
   __CPROVER_assert(lemma_osec_lex_ENS(a, b), "lemma_osec_lex.ENS");
 }
 #pragma CPROVER check pop
+
+void pl_lemma_prepost(void)
+{
+  Z oc, ut; int offp, offn;
+  __CPROVER_assume(lemma_prepost_REQ(oc, ut, offp, offn));
+  __CPROVER_assert(lemma_prepost_ENS(oc, ut, offp, offn), "lemma_prepost.ENS");
+}
 
 /* R19: the padded table elements are exactly 64 bytes (pointer <-> index conversion is a shift) */
 _Static_assert(sizeof(Transition) == 64 && sizeof(TransitionType) == 64, "R19 padding");
